@@ -964,11 +964,20 @@ impl<B> LimitedBuf<B> {
     }
 }
 
+/// Returns the smallest of `len` and `limit`.
+///
+/// NOTE: the `limit` can be larger than `u32::MAX`, so it can't be truncated to
+/// an `u32` before comparing.
+#[allow(clippy::cast_possible_truncation)] // Never larger than `len`.
+fn limit_len(len: u32, limit: usize) -> u32 {
+    min(len as usize, limit) as u32
+}
+
 unsafe impl<B: BufMut> BufMut for LimitedBuf<B> {
     unsafe fn parts_mut(&mut self) -> (*mut u8, u32) {
         // SAFETY: reposibilities lie with the caller.
         let (ptr, len) = unsafe { self.buf.parts_mut() };
-        (ptr, min(len, self.limit as u32))
+        (ptr, limit_len(len, self.limit))
     }
 
     unsafe fn set_init(&mut self, n: usize) {
@@ -978,7 +987,7 @@ unsafe impl<B: BufMut> BufMut for LimitedBuf<B> {
     }
 
     fn spare_capacity(&self) -> u32 {
-        min(self.buf.spare_capacity(), self.limit as u32)
+        limit_len(self.buf.spare_capacity(), self.limit)
     }
 
     fn has_spare_capacity(&self) -> bool {
@@ -1011,7 +1020,7 @@ unsafe impl<B: BufMutSlice<N>, const N: usize> BufMutSlice<N> for LimitedBuf<B> 
     }
 
     fn total_spare_capacity(&self) -> u32 {
-        min(self.buf.total_spare_capacity(), self.limit as u32)
+        limit_len(self.buf.total_spare_capacity(), self.limit)
     }
 
     fn has_spare_capacity(&self) -> bool {
@@ -1023,7 +1032,7 @@ unsafe impl<B: Buf> Buf for LimitedBuf<B> {
     unsafe fn parts(&self) -> (*const u8, u32) {
         // SAFETY: reposibilities lie with the caller.
         let (ptr, len) = unsafe { self.buf.parts() };
-        (ptr, min(len, self.limit as u32))
+        (ptr, limit_len(len, self.limit))
     }
 
     fn len(&self) -> usize {
